@@ -95,6 +95,12 @@ def random_pool(rng, kind, cap, el, nops):
     for _ in range(nops):
         if kind == "ph" and not engaged and rng.random() < 0.06:
             n2 = rng.randrange(1, 6); lines.append("PEngage %d" % n2); cap += n2; engaged = True      # a second zone for the same pool
+        elif kind == "sop" and el == 32 and rng.random() < 0.3:      # constructors that use the pool they are created in
+            if nlive and rng.random() < 0.5:
+                lines.append("PAllocF %d" % rng.randrange(nlive))
+                if nlive == cap: pass                   # full pool: create() answers null, nothing happens
+            else:
+                lines.append("PAllocN"); nlive = min(cap, nlive + 2)
         elif rng.random() < 0.55 or nlive == 0:
             lines.append("PAlloc"); nlive = min(cap, nlive + 1)
         else:
@@ -128,7 +134,7 @@ def check(ctx):
     for i in range(n):
         k = ["ph", "ip", "sop"][i % 3]
         if k == "sop":
-            cap, el = ctx.rng.choice([(4, 8), (3, 24), (1, 64), (5, 12), (3, 128), (3, 128)])      # (3, 128): an element type with alignas(64)
+            cap, el = ctx.rng.choice([(4, 8), (3, 24), (1, 64), (5, 12), (3, 128), (3, 128), (4, 32), (4, 32)])      # (3, 128): an element type with alignas(64); (4, 32): constructors that use the pool
         else:
             cap, el = ctx.rng.randrange(1, 9), ctx.rng.choice([8, 16, 24, 64])
         pools += random_pool(ctx.rng, k, cap, el, 50)
@@ -161,6 +167,12 @@ def replay(ctx, path):
         elif n == "PEngage": lines.append("PEngage %d" % e["n2"])
         elif n == "PAlloc":
             lines.append("PAlloc")
+            if e["cell"] >= 0: nl.append(e["cell"])
+        elif n == "PAlloc2":
+            lines.append("PAllocN"); nl += [c for c in e["cells"] if c >= 0]
+        elif n == "PAllocF":
+            k = nl.index(e["freed"]) if e["freed"] in nl else 0; lines.append("PAllocF %d" % k)
+            if e["freed"] in nl: nl.remove(e["freed"])
             if e["cell"] >= 0: nl.append(e["cell"])
         elif n == "PFree":
             k = nl.index(e["cell"]); nl.pop(k); lines.append("PFree %d" % k)
